@@ -37,10 +37,13 @@ NoRed == [on |-> FALSE, incache |-> FALSE, inwin |-> FALSE, orig |-> "", pending
 
 NewSession(u) == u \in Users /\ hist' = [hist EXCEPT ![u] = <<>>] /\ UNCHANGED red
 
-\* hist lists DISTINCT queries: an answer to a query whose (case-folded) name is still inside the memory window is a
-\* repeat of that query (the copy the relay re-sent may even have arrived before the original) and adds no entry
+\* hist lists DISTINCT queries, one entry per first processing as the server's memories do: a header-carrying answer
+\* to exactly the same name as an entry still inside the memory window is a repeat of that query (the copy the relay
+\* re-sent may even have overtaken the original) and adds no entry.  A case-changed copy that the server did process
+\* as a query of its own (it compares held queries by exact name) does get its own entry.
+SeenExact(u, nm, kind) == nm \in Names(LastN(OfKind(hist[u], kind), IF kind = "data" THEN QMEMD ELSE QMEMP))
 Record(h, u, nm, lk, kind, pl) ==
-    IF InQmem(u, lk, kind) THEN h
+    IF SeenExact(u, nm, kind) THEN h
     ELSE [h EXCEPT ![u] = LastN(Append(@, [nm |-> nm, lk |-> lk, kind |-> kind, pl |-> pl]), KEEP)]
 
 AnsFirst(u, nm, lk, kind, pl) ==
@@ -48,12 +51,15 @@ AnsFirst(u, nm, lk, kind, pl) ==
     /\ hist' = Record(hist, u, nm, lk, kind, pl)
     /\ UNCHANGED red
 
-\* the re-delivered datagram is read by the server: the windows are evaluated on the history BEFORE this step
-RedBegin(u, nm, lk, kind, pending) ==
+\* the re-delivered datagram is read by the server: the windows are evaluated on the history BEFORE this step.
+\* pending = a query with this name (letter case ignored) is being held: the re-delivery is inside the property's scope;
+\* pendingx = a held query has exactly this name: the server remembers it as a duplicate and answers both at once
+\* (a case-changed copy is answered as a query of its own and takes its own slot in the server's memories)
+RedBegin(u, nm, lk, kind, pending, pendingx) ==
     /\ u \in Users
     /\ red' = [on |-> TRUE, incache |-> InCache(u, nm),
                inwin |-> (InCache(u, nm) \/ InQmem(u, lk, kind) \/ pending),
-               orig |-> IF InCache(u, nm) THEN OrigPl(u, nm) ELSE "", pending |-> pending]
+               orig |-> IF InCache(u, nm) THEN OrigPl(u, nm) ELSE "", pending |-> pendingx]
     /\ UNCHANGED hist
 
 \* end of that server step
